@@ -12,13 +12,25 @@ import traceback
 
 ROOT = os.path.dirname(os.path.dirname(os.path.abspath(__file__)))
 REPO = os.environ.get('VT_REPO', '/repo')
-EVIDENCE_DIR = os.path.join(ROOT, 'evidence')
-REPLAY_DIR = os.path.join(ROOT, 'replays')
+_OUT = os.environ.get('VT_OUT') or ROOT          # dev self-tests against scratch copies write elsewhere
+EVIDENCE_DIR = os.path.join(_OUT, 'evidence')
+REPLAY_DIR = os.path.join(_OUT, 'replays')
 FINDINGS_FILE = os.path.join(ROOT, 'known_findings.json')
 
 
 class Inconclusive(Exception):
     pass
+
+
+def z3_check(solver, timeout_ms):
+    """solver.check() under z3's own timeout.  (z3 does not always honour it inside polynomial preprocessing; a query that
+    overruns is cut by the per-task process timeout of pmap and reported as inconclusive.  A watchdog thread calling
+    ctx.interrupt() was tried and crashed z3 with heap corruption, so it is not used.)"""
+    solver.set('timeout', int(timeout_ms))
+    try:
+        return str(solver.check())
+    except Exception:
+        return 'unknown'
 
 
 def load_findings():
@@ -83,7 +95,7 @@ class Ctx:
     def check_sat(self, solver, what=''):
         import z3
         t = time.time()
-        r = solver.check()
+        r = z3_check(solver, 60000 if self.tier == 'quick' else 600000)
         self.solver_s += time.time() - t
         self.queries += 1
         return str(r)
@@ -230,16 +242,70 @@ def _pcall(args):
         return ('error', f"{type(e).__name__}: {e}\n{traceback.format_exc()[-1500:]}")
 
 
-def pmap(fn, items, procs=None):
-    """run fn(item) for each item in forked worker processes; returns list of ('ok'|'inconclusive'|'error', value)"""
+def _child(conn, fn, item):
+    try:
+        conn.send(_pcall((fn, item)))
+    except BaseException as e:          # result not picklable etc.
+        try:
+            conn.send(('error', f'{type(e).__name__}: {e}'))
+        except Exception:
+            pass
+    finally:
+        conn.close()
+
+
+def pmap(fn, items, procs=None, task_timeout=None):
+    """run fn(item) for each item in its own forked process (at most `procs` at a time).  Returns a list of
+    ('ok'|'inconclusive'|'error', value) in input order.  A worker that dies (crash inside a native library) or exceeds
+    task_timeout is reported as inconclusive for that item instead of hanging the run."""
     import multiprocessing as mp
     items = list(items)
-    procs = min(procs or int(os.environ.get('VT_PROCS', '0') or (os.cpu_count() or 4)), max(1, len(items)))
-    if procs <= 1 or len(items) <= 1:
-        return [_pcall((fn, it)) for it in items]
+    procs = min(procs or int(os.environ.get('VT_PROCS', '0') or 0) or (os.cpu_count() or 4), max(1, len(items)))
+    task_timeout = task_timeout or float(os.environ.get('VT_TASK_TIMEOUT', '0') or 0) or 1500.0
+    if len(items) == 0:
+        return []
     ctx = mp.get_context('fork')
-    with ctx.Pool(procs, maxtasksperchild=8) as pool:
-        return pool.map(_pcall, [(fn, it) for it in items], chunksize=1)
+    results = [None] * len(items)
+    pending = list(range(len(items)))
+    running = {}          # idx -> (process, conn, t_start)
+    while pending or running:
+        while pending and len(running) < procs:
+            i = pending.pop(0)
+            parent, child = ctx.Pipe(duplex=False)
+            p = ctx.Process(target=_child, args=(child, fn, items[i]))
+            p.daemon = True
+            p.start()
+            child.close()
+            running[i] = (p, parent, time.time())
+        done = []
+        for i, (p, conn, t0) in running.items():
+            if conn.poll(0):
+                try:
+                    results[i] = conn.recv()
+                except EOFError:
+                    results[i] = ('inconclusive', f'worker died without a result (exit code {p.exitcode})')
+                done.append(i)
+            elif not p.is_alive():
+                # the child may have sent its result just before exiting
+                if conn.poll(0.2):
+                    try:
+                        results[i] = conn.recv()
+                    except EOFError:
+                        results[i] = ('inconclusive', f'worker died without a result (exit code {p.exitcode})')
+                else:
+                    results[i] = ('inconclusive', f'worker died without a result (exit code {p.exitcode})')
+                done.append(i)
+            elif time.time() - t0 > task_timeout:
+                p.kill()
+                results[i] = ('inconclusive', f'task exceeded {task_timeout:.0f} s')
+                done.append(i)
+        for i in done:
+            p, conn, _ = running.pop(i)
+            p.join(timeout=5)
+            conn.close()
+        if not done:
+            time.sleep(0.05)
+    return results
 
 
 def run_replay(pid, data, timeout=600):
